@@ -284,11 +284,17 @@ def r_units(ctx, a):
             r = np.asarray(r, dtype=np.float64).ravel().tolist(); okk = 1
         except ValueError:
             r = [0.0] * arr.size; okk = 0
+        except (ZeroDivisionError, OverflowError):      # compound scaling factor left the float64 range
+            r = [0.0] * arr.size; okk = -1
+        if okk == 1 and not all(math.isfinite(x) and (x == 0 or abs(x) > 1e-280) for x in r): okk = -1
         impl_nd += r; impl_ok += [okk] * arr.size
-    ctx.exact('nondimensionalize raises iff a needed scale is missing', impl_ok, [int(v) for v in m_nd[0::2]])
-    ctx.count('units:valueerror', impl_ok.count(0)); ctx.count('units:quantities', k)
+    mflags = [int(v) for v in m_nd[0::2]]
+    ctx.exact('nondimensionalize raises iff a needed scale is missing', [mf if io == -1 else io for io, mf in zip(impl_ok, mflags)], mflags)
+    ctx.count('units:valueerror', impl_ok.count(0)); ctx.count('units:quantities', k); ctx.count('units:range_skipped', impl_ok.count(-1))
+    impl_ok = [1 if io == 1 else 0 for io in impl_ok]
     for i in range(k):
-        ctx.corr('Scale.nondimensionalize', [impl_nd[i]], [m_nd[2 * i + 1]], scale=abs(float(m_nd[2 * i + 1])) + 1e-300)
+        if impl_ok[i] or not mflags[i]:
+            ctx.corr('Scale.nondimensionalize', [impl_nd[i]], [m_nd[2 * i + 1]], scale=abs(float(m_nd[2 * i + 1])) + 1e-300)
     # --- dimensionalize in an alternative compatible unit
     m_dim = ctx.model.call(1, base_ints + [e for f in flat for e in vec(f[2])], [cv, msc, impl_nd])
     for i, (m, u, alt, kk) in enumerate(flat):
@@ -305,15 +311,32 @@ def r_units(ctx, a):
         nd2 = S.nondimensionalize(orig.to(_unit(alt)))
         ctx.oracle_close('nondimensionalize is independent of the unit of expression', [float(nd2)], [impl_nd[i]], scale=abs(impl_nd[i]) + 1e-300)
         j = (i + 1) % k
+        # products / quotients / powers: compound scaling factors can leave the float64 range
+        # (e.g. mass^-9 under the atmospheric scale underflows to 0): those cases are skipped
+        def _nd(q):
+            try:
+                r = float(S.nondimensionalize(q))
+            except (ZeroDivisionError, OverflowError):
+                return None
+            return r if math.isfinite(r) and abs(r) > 1e-280 else None
         if impl_ok[j]:
             q2 = flat[j][0] * _unit(flat[j][1])
-            ctx.oracle_close('nondimensionalize respects products', [float(S.nondimensionalize(orig * q2))], [impl_nd[i] * impl_nd[j]],
-                             scale=abs(impl_nd[i] * impl_nd[j]) + 1e-300)
-            ctx.oracle_close('nondimensionalize respects quotients', [float(S.nondimensionalize(orig / q2))], [impl_nd[i] / impl_nd[j]],
-                             scale=abs(impl_nd[i] / impl_nd[j]) + 1e-300)
-        p = float(S.nondimensionalize(orig ** kk)); pw = impl_nd[i] ** kk
-        if math.isfinite(pw) and abs(pw) > 1e-280:
+            pr = impl_nd[i] * impl_nd[j]; qu = impl_nd[i] / impl_nd[j] if impl_nd[j] != 0 else float('inf')
+            a1 = _nd(orig * q2); a2 = _nd(orig / q2)
+            if a1 is not None and math.isfinite(pr) and abs(pr) > 1e-280:
+                ctx.oracle_close('nondimensionalize respects products', [a1], [pr], scale=abs(pr))
+            else: ctx.count('units:range_skipped')
+            if a2 is not None and math.isfinite(qu) and abs(qu) > 1e-280:
+                ctx.oracle_close('nondimensionalize respects quotients', [a2], [qu], scale=abs(qu))
+            else: ctx.count('units:range_skipped')
+        try:
+            pw = impl_nd[i] ** kk
+        except (ZeroDivisionError, OverflowError):
+            pw = float('inf')
+        p = _nd(orig ** kk)
+        if p is not None and math.isfinite(pw) and abs(pw) > 1e-280:
             ctx.oracle_close('nondimensionalize respects powers', [p], [pw], scale=abs(pw))
+        else: ctx.count('units:range_skipped')
 
 
 # ---------------------------------------------------------------------------
